@@ -65,6 +65,22 @@ def _pin_iterable(m, rep, cl):
         it = loops[0].iter
         w = where(fn, loops[0].node)
         root = strip_mut(it)
+        # the caller's prefix collection is consumed by the pin loop only (a one-shot iterable must not be exhausted before it)
+        early = []
+        for e in path.effects:
+            if e.kind == "loop" and e.a is loops[0]:
+                break
+            ts = [e.a] if e.kind == "call" else []
+            for t in ts:
+                for x in subterms(t):
+                    if x[0] == "comp" and any(strip_mut(g[1]) == pp for g in x[4]):
+                        early.append(show(x)[:80])
+                    if x[0] == "call" and x[1][0] in ("builtin",) and x[1][1] in ("list", "tuple", "sorted", "set", "len", "sum", "any", "all", "iter", "next") and x[2] and strip_mut(x[2][0]) == pp:
+                        early.append(show(x)[:80])
+                    if x[0] == "call" and M.callee_name(x) == "join" and x[2] and strip_mut(x[2][0]) == pp:
+                        early.append(show(x)[:80])
+        rep.ob(cl + ".prefix-list-consumed-once", fn.name, not early, "the given prefix collection is iterated before the pin loop by %s: a one-shot iterable (generator, map) would be exhausted and nothing pinned" % sorted(set(early)), w,
+               key=cl + ".prefix-list-consumed-once|" + fn.name, nontrivial=False)
         # which defaulting branch is this path on?
         pp_none = None
         pa_none = None
